@@ -537,6 +537,13 @@ package core
 // DeleteRegion: with the region storage switched on, the deletion goes through the region storage's own DeleteRegion,
 // which also takes the region out of the batch that is waiting to be flushed (otherwise the next flush writes a
 // deleted region back).
+// deleteRegion (used by the loader's pruning and by Storage.DeleteRegion): when the backend is the region storage the
+// deletion goes through its DeleteRegion (and so also leaves the pending batch), otherwise it is one kv removal.
+//@ func deleteRegion
+//@   props C06 C17
+//@   ensures [through-the-region-storage] typeisptr(kv, RegionStorage) ==> count("rsDelete") == old(count("rsDelete")) + 1
+//@   option nosafety
+//@   modifies all RegionStorage.batchRegions, all map[string]*metapb.Region, ghost kvhas, ghost kvval, ghost evres
 //@ func (*RegionStorage).DeleteRegion
 //@   props C06 C17
 //@   ensures [no-longer-pending] !in(s.batchRegions, callres("regionPath", 1))
